@@ -446,6 +446,9 @@ func copyFile(src, dst string) error {
 
 // execCase runs one case and returns its lines with observations.
 func execCase(lines []string) (out []string, err error) {
+	if isMigCase(lines) {
+		return execMig(lines) // crash points inside MigrateTopicStoreV1V2: mig.go
+	}
 	dir := caseDir()
 	defer os.RemoveAll(dir)
 	cfg := &caseCfg{logPath: filepath.Join(dir, "alert.log")}
